@@ -70,8 +70,10 @@ def _trailing_backslashes_regex(m):
 
 _sub_re = Replacer()
 _sub_re.add("^RE:", "")
+_sub_re.add(r"\\.", r"\&")  # keep anything backslashed: \( is not a group
+_sub_re.add(r"\[\^?\]?(?:[^\]\[\\]|\\.|\[:[^\]]+:\])+\]", r"\&")  # nor is ( in a char group
 _sub_re.add("\\((?!\\?)", "(?:")
-_sub_re.add("\\(\\?P<.*>", _invalid_regex("(?:"))
+_sub_re.add("\\(\\?P<[^>]*>", _invalid_regex("(?:"))
 _sub_re.add("\\(\\?P=[^)]*\\)", _invalid_regex(""))
 _sub_re.add(r"\\+$", _trailing_backslashes_regex)
 
